@@ -151,6 +151,7 @@ impl<'a> Minimiser<'a> {
     fn doc(&self, scs: &[Scenario], detail: &str) -> Value {
         json!({
             "property": self.p.id,
+            "profile": if cfg!(debug_assertions) { "debug" } else { "release" },
             "seed": self.seed,
             "run_index": self.run_index,
             "class": self.class,
@@ -552,7 +553,7 @@ pub fn xproc_compare(path: &Path) -> Result<Option<Violation>, String> {
 
 fn xproc_doc(p: &HistProp, seed: u64, index: u64, variants: &[Scenario], detail: &str) -> Value {
     json!({
-        "property": p.id, "seed": seed, "run_index": index, "class": XPROC_CLASS, "detail": detail,
+        "property": p.id, "profile": if cfg!(debug_assertions) { "debug" } else { "release" }, "seed": seed, "run_index": index, "class": XPROC_CLASS, "detail": detail,
         "xproc": true,
         "scenarios": variants.iter().map(|s| s.to_json()).collect::<Vec<_>>(),
     })
@@ -786,7 +787,7 @@ pub fn check(p: &HistProp, tier: Tier, extra: impl FnOnce(&mut Map<String, Value
     let mut fired = Map::new();
     let mut other = Map::new();
     for (k, v) in &red.counters {
-        if k.starts_with("clock_") || k.starts_with("in_call") || k.starts_with("hash_") || k.starts_with("thread_") || k.starts_with("logger_") || k.starts_with("caller_") || k.starts_with("monotonic") || k.starts_with("fault_") {
+        if k.starts_with("clock_") || k.starts_with("in_call") || k.starts_with("hash_") || k.starts_with("thread_") || k.starts_with("logger_") || k.starts_with("caller_") || k.starts_with("monotonic") || k.starts_with("fault_") || k.starts_with("environment_") {
             fired.insert(k.clone(), json!(v));
         } else {
             other.insert(k.clone(), json!(v));
